@@ -12,10 +12,10 @@ namespace AV.Props.C09
 open AV Pub
 
 def LockClean (re : Bool) (p : Prog α) : Prop :=
-  ∀ (env : Env) (n : Nat), ∃ held, (lockMonG re).runTrace [] (run p env n).1 = some held ∧
+  ∀ (env : Env) (n : Nat), ∃ held, (lockMonG re true).runTrace [] (run p env n).1 = some held ∧
     ((run p env n).2.isPanic = false → held = [])
 
-theorem clean_of_ok {re : Bool} {p : Prog α} (h : LockOK re [] p) : LockClean re p := by
+theorem clean_of_ok {re : Bool} {p : Prog α} (h : LockOK re true [] p) : LockClean re p := by
   intro env n
   obtain ⟨s', h1, h2⟩ := SafeP.sound h env n
   refine ⟨s', h1, fun hp => ?_⟩
